@@ -365,6 +365,8 @@ class Engine(object):
             return z3.BoolVal(False)
         if isinstance(a, (PyTuple, GList)) or isinstance(b, (PyTuple, GList)):
             raise EngineError('comparison of aggregate with scalar')
+        if isinstance(a, V) and isinstance(b, V):
+            a, b = self.float_align(a, b)
         if self.find_special(a, '__eq__') is None and self.find_special(b, '__eq__') is not None:
             a, b = b, a
         res = self.call_special(st, a, '__eq__', [b], lambda s: V(mkB(a.t == b.t), parse_spec('bool')))
